@@ -101,11 +101,14 @@ fn gen_cfg(rng: &mut impl Rng, thorough: bool, mode: &str, with_apps: bool) -> R
             }
             _ => {
                 let style = rng.gen_range(0..3);
+                // any station may be a late joiner, also the lowest address (it then has to be found by
+                // the wrap-around GAP of the highest ring member); at least one station starts cold
+                let cold = rng.gen_range(0..n);
                 for (i, j) in joins.iter_mut().enumerate() {
                     *j = match style {
                         0 => 0,
                         _ => {
-                            if i == 0 || rng.gen_bool(0.4) {
+                            if i == cold || rng.gen_bool(0.4) {
                                 0
                             } else {
                                 // onto an active bus: after the first claim plus up to 300 slot times
@@ -117,7 +120,7 @@ fn gen_cfg(rng: &mut impl Rng, thorough: bool, mode: &str, with_apps: bool) -> R
                 if style == 2 {
                     // several joiners at the same instant
                     let t = tto_min_us + (40 + rng.gen_range(0..300)) * slot_us;
-                    for j in joins.iter_mut().skip(1) {
+                    for j in joins.iter_mut() {
                         if *j != 0 {
                             *j = t;
                         }
@@ -167,6 +170,12 @@ pub fn run(args: &Args) {
     let thorough = args.str("tier", "quick") == "thorough";
     let mode = args.str("mode", "ff"); // ff | apps | fault | race
     let mut log = EvLog::create(&out);
+    if mode == "claim" {
+        claim_sweep(&mut log, thorough, seed0);
+        log.flush();
+        eprintln!("ring(claim): {} events", log.count);
+        return;
+    }
     for r in 0..runs {
         let seed = seed0.wrapping_mul(1_000_003).wrapping_add(r);
         one_run(&mut log, seed, thorough, &mode);
@@ -367,4 +376,53 @@ fn one_run(log: &mut EvLog, seed: u64, thorough: bool, mode: &str) {
     let tend = st.iter().map(|s| s.next).filter(|x| *x < i64::MAX / 8).min().unwrap_or(0) * TPU;
     let b = bus.borrow();
     log.push(json!({"ev":"End","t":tend,"polls":polls,"txs":b.txs.len(),"collisions":b.collisions,"log_records":log_records()}));
+}
+
+/// A lone station on a silent bus: when does it claim the token?  Deterministic sweep over
+/// (baud rate, slot time, address) - the address-staggered silence time-out of C01.
+fn claim_sweep(log: &mut EvLog, thorough: bool, seed: u64) {
+    let mut rng = rand::rngs::StdRng::seed_from_u64(seed);
+    let addrs: Vec<u8> = if thorough { (0..=125).collect() } else { vec![0, 1, 2, 15, 29, 30, 31, 51, 52, 53, 78, 79, 80, 106, 107, 108, 124, 125] };
+    for &(baud, rate, minslot) in BAUDS.iter() {
+        let mut slots: Vec<u16> = vec![minslot, minslot + 100, 1000, 4000];
+        if thorough {
+            slots.extend_from_slice(&[2000, 8000, 16383]);
+        }
+        slots.retain(|s| *s >= minslot);
+        slots.dedup();
+        for &slot in &slots {
+            for &a in &addrs {
+                let c = RingCfg { baud, rate, slot, hsa: 126, gap: 1, ttr: 126 * 5000, addrs: vec![a], periods: vec![1], joins: vec![0], napps: vec![0] };
+                let tsl = bits(rate, slot as i64);
+                let tto = (6 + 2 * a as i64) * tsl;
+                if tto * 3 > 1_500_000_000 {
+                    continue; // beyond the 32-bit tick budget of the trace checker
+                }
+                let slot_us = (slot as i64 * 1_000_000 / rate).max(1);
+                let period = (slot_us / 4).max(1);
+                let bus = Bus::new(rate);
+                let cblog: CbLog = Rc::new(RefCell::new(vec![]));
+                let mut st = Station { addr: a, fdl: mk_station(&c, 0), phy: VPhy::new(bus.clone(), 0), apps: vec![], period, next: 0, join_at: 0, online: false, crashed: false, polls: 0 };
+                log.push(json!({
+                    "ev":"Cfg","mode":"claim","seed":0,"stations":[a],"hsa":126,"gap":1,"baud":rate,"slot_bits":slot,
+                    "tid":bits(rate,33),"tsdr":bits(rate,11),"tsl":tsl,"tto":[tto],"period":[period * TPU],"ttr":bits(rate, 126 * 5000),
+                    "bconv": 3 * tto + 400 * tsl,"brec":0,"us":TPU,"napps":[0],"apps":false,"cycle":0,
+                }));
+                st.fdl.set_online();
+                log.push(json!({"ev":"Online","st":a,"t":0}));
+                let mut t: i64 = 0;
+                let mut ntx = 0;
+                while t * TPU < 2 * tto + 50 * tsl && ntx < 3 {
+                    let before = bus.borrow().txs.len();
+                    if let PollOutcome::Panicked = poll_station(&mut st, t, &bus, &cblog, log, false) {
+                        break;
+                    }
+                    ntx += bus.borrow().txs.len() - before;
+                    t += 1.max(period / 2 + rng.gen_range(0..=period / 2));
+                }
+                log.push(json!({"ev":"End","t":t * TPU,"polls":st.polls,"txs":ntx,"collisions":0,"log_records":0}));
+                log.push(json!({"ev":"Reset"}));
+            }
+        }
+    }
 }
